@@ -272,8 +272,15 @@ Section Frame.
     destruct (handler users t 3 h (e_arg e) (e_data e) false v1) as [[x1 o1] k1].
     destruct (handler users t 3 h (e_arg e) (e_data e) false v2) as [[x2 o2] k2].
     destruct R as (Wx & Eo & Ek). cbn [fst snd] in *. subst o2 k2.
-    split; [|reflexivity]. destruct k1; [exact Wx|].
-    destruct Wx as (Es' & El' & sub' & E1' & E2').
+    split; [|reflexivity].
+    (* the dispatcher clears the restart offset after a transfer command too (transfer_offset hand-over) *)
+    assert (Wy : WR (if is_transfer (e_verb e) then set_sess x1 (set_rest (w_s x1) 0) else x1)
+                    (if is_transfer (e_verb e) then set_sess x2 (set_rest (w_s x2) 0) else x2)).
+    { destruct (is_transfer (e_verb e)); [|exact Wx].
+      destruct Wx as (Es' & El' & sub' & E1' & E2').
+      unfold WR. cbn [w_s w_fs w_log set_sess]. rewrite Es'. split; [reflexivity|]. split; [exact El'|]. exists sub'. split; assumption. }
+    destruct k1; [exact Wy|].
+    destruct Wy as (Es' & El' & sub' & E1' & E2').
     unfold WR. cbn [w_s w_fs w_log set_sess]. rewrite Es'. split; [reflexivity|]. split; [exact El'|]. exists sub'. split; assumption.
   Qed.
 End Frame.
